@@ -86,7 +86,7 @@ class Gen:
             }
             if md["ow"]:
                 md["ret"] = self.inp(md["ow"]) if self.chance(0.7) else None
-            if iw and not nonex and self.chance(f["p_val"]):
+            if iw and self.chance(f["p_val"] * (0.6 if nonex else 1.0)):  # also on nonexclusive methods (validated per call)
                 md["val"] = rng.choice([["ne", rng.getrandbits(iw)], ["lt", rng.randint(1, (1 << iw) - 1)], ["bit0", rng.getrandbits(1)]])
             methods.append(md)
         self.methods = methods
@@ -231,11 +231,28 @@ class Gen:
         cands = [m for m in callable_ if self.allowed(m, used)]
         if cands and self.chance(0.5):
             same = rng.choice(cands)
+        # ... or towards reaching one method by different routes from different alternatives: a caller X of Y in
+        # one alternative, Y itself (or another caller of Y) in another
+        routes = []
+        if cands and self.chance(0.45):
+            tops = [x for x in cands if len(self.reach[x]) > 1]
+            if tops:
+                x = rng.choice(tops)
+                below = sorted(self.reach[x] - {x})
+                y = rng.choice(below)
+                others = [z for z in cands if z != x and y in self.reach[z]]
+                routes = [x, rng.choice(others) if others else y]
+                if self.chance(0.5):
+                    routes.reverse()
+                same = None
         alts = []
         acc = set()
-        for _ in range(nalt + 1):
+        for k in range(nalt + 1):
             u = set(used)
             body = []
+            if routes and k < 3 and self.allowed(routes[k % 2], u) and self.chance(0.85):
+                body.append(self.call(routes[k % 2], in_method))
+                u |= self.reach[routes[k % 2]]
             if same is not None and self.chance(0.8):
                 body.append(self.call(same, in_method))
                 u |= self.reach[same]
@@ -580,20 +597,38 @@ def generate_cond(rng, feat=None):
     tree = [[], []]
     for md in methods:
         tree[rng.randrange(2)].append(["M", {"id": md["id"], "body": []}])
-    kind = rng.choice(["T", "T", "M1", "M2"])
+    kind = rng.choice(["T", "T", "M1", "M2", "MW1", "MW2"])
     if kind == "T":
         tree[0].append(["T", {"id": "t0", "ready": g.inp() if rng.random() < 0.7 else None, "body": ebody}])
     else:
-        emd = {"id": "e0", "iw": 0, "ow": 0, "k": 0, "nonex": False, "comb": None, "single": False, "val": None,
-               "ready": g.inp() if rng.random() < 0.5 else None, "ret": None}
-        methods.append(emd)
-        g.mdef["e0"] = emd
-        g.reach["e0"] = {"e0"}
-        g.has_val["e0"] = False
+        def newm(mid):
+            emd = {"id": mid, "iw": 0, "ow": 0, "k": 0, "nonex": False, "comb": None, "single": False, "val": None,
+                   "ready": g.inp() if rng.random() < 0.5 else None, "ret": None}
+            methods.append(emd)
+            g.mdef[mid] = emd
+            g.reach[mid] = {mid}
+            g.has_val[mid] = False
+
+        def guarded(call):
+            """the call as it is, or under an m.If (both make the callee 'conditionally called')"""
+            if call[1].get("en") is None and rng.random() < 0.35:
+                return ["If", {"u": g.uid(), "arms": [[g.inp(), [call]]], "else": None}]
+            return call
+
+        newm("e0")
         tree[0].append(["M", {"id": "e0", "body": ebody}])
-        for j in range(1 if kind == "M1" else 2):
+        entry = "e0"
+        if kind.startswith("MW"):
+            # the method with the condition is called unconditionally by a wrapper method; the guard
+            # (enable_call / m.If) sits one level further up, at the wrapper's callers
+            newm("w0")
+            inner = g.call("e0", None)
+            inner[1]["en"] = None
+            tree[rng.randrange(2)].append(["M", {"id": "w0", "body": [inner]}])
+            entry = "w0"
+        for j in range(1 if kind.endswith("1") else 2):
             tree[rng.randrange(2)].append(["T", {"id": f"t{j}", "ready": g.inp() if rng.random() < 0.8 else None,
-                                                 "body": [g.call("e0", None)]}])
+                                                 "body": [guarded(g.call(entry, None))]}])
     for j in range(rng.choice([0, 1, 1, 2])):
         k = rng.choice([1, 1, 2])
         body = [g.call(mid, None) for mid in rng.sample(pool, min(len(pool), k))]
@@ -605,7 +640,13 @@ def generate_cond(rng, feat=None):
         for nodes in tree:
             for k, n in nodes:
                 if k == "T":
+                    body = []
                     for kk, c in n["body"]:
-                        if kk == "C" and c["m"] == "e0":
+                        if kk == "If" and len(c["arms"]) == 1 and c["arms"][0][1] and c["arms"][0][1][0][0] == "C" \
+                                and c["arms"][0][1][0][1]["m"] in ("e0", "w0"):
+                            kk, c = c["arms"][0][1][0]
+                        if kk == "C" and c["m"] in ("e0", "w0"):
                             c["en"] = None
+                        body.append([kk, c])
+                    n["body"] = body
     return prog
